@@ -215,8 +215,16 @@ EXCLUDED_NAMES = frozenset(
         "__exit__",
         "pop_interpretation",
         "seeded_identity_hash",
+        # subclass checks run or not depending on the state of lru/ABC caches,
+        # which depends on the order in which multipledispatch's ambiguity scan
+        # compares signatures (it sorts by address-based hash(signature)):
+        # counting them would make "the n-th internal call" differ from one
+        # interpreter to the next
+        "__subclasscheck__",
+        "__instancecheck__",
     ]
 )
+EXCLUDED_FILES = ("typing.py",)
 
 
 class CallInjector:
@@ -254,7 +262,11 @@ class CallInjector:
     def _on_start(self, code, offset):
         ok = self._decided.get(code)
         if ok is None:
-            ok = code.co_filename.startswith(FUNSOR_DIR) and code.co_name not in EXCLUDED_NAMES
+            ok = (
+                code.co_filename.startswith(FUNSOR_DIR)
+                and code.co_name not in EXCLUDED_NAMES
+                and not code.co_filename.endswith(EXCLUDED_FILES)
+            )
             self._decided[code] = ok
         if not ok:
             return MON.DISABLE
